@@ -237,29 +237,49 @@ def rule_rank_agree(ctx):
                         # replace the successor term and the next key by symbols, then compare by FORM
                         nxt = None
                         for s in subterms(tt):
-                            if is_in_call(s) and in_arg(s) == ('op', '+', e, ('lit', 1)):
+                            if is_in_call(s) and _lin_diff_is(in_arg(s), e, 1):
                                 nxt = s
                         if nxt is None:
                             continue
-                        cur = [s for s in subterms(tt) if is_in_call(s) and in_arg(s) == e]
+                        cur = [s for s in subterms(tt) if is_in_call(s) and _lin_diff_is(in_arg(s), e, 0)]
                         t2 = _replace(tt, nxt, ('sym', 'NEXT'))
                         if succ_of(strip_cast(tt[2])) is not None and tt[0] == 'op':
                             t2 = ('op', tt[1], ('sym', 'S'), _replace(tt[3], nxt, ('sym', 'NEXT')))
                         else:
                             for cc in cur:
                                 t2 = _replace(t2, cc, ('op', '-', ('sym', 'S'), ('lit', 1)))
-                        try:
-                            a1 = {frozenset(x_.key() for x_ in g_) for g_ in form.cases(t2, True)}
-                            a2 = {frozenset(x_.key() for x_ in g_) for g_ in form.cases(want, True)}
-                            if a1 == a2:
-                                okg = True
-                        except form.Unrecognised:
-                            pass
+                        if _implies(t2, want):
+                            okg = True
                     obs.append(Ob('GAP-GUARD', f, c, 'the successor of a duplicated key is added only if it is smaller than the next key (keeps x strictly increasing)',
                                   'guarded by ' + (' & '.join(seen) or 'nothing'), OK if okg else VIOLATED, arm='gap'))
                 continue
             obs.append(Ob('RANK-AGREE', f, c, 'add_point(in(e), e) or a successor point', f"add_point({fmt_term(xt)[:60]}, {fmt_term(yt)})", VIOLATED, arm='other'))
     return obs
+
+
+def _lin_diff_is(a, b, k):
+    """a - b == k as integer linear forms"""
+    try:
+        va, vb = form.value(a), form.value(b)
+    except form.Unrecognised:
+        return False
+    if len(va) != 1 or len(vb) != 1:
+        return False
+    d = va[0][1] - vb[0][1]
+    return d.is_const() and d.k == k
+
+
+def _implies(t, atom):
+    """does boolean term t (when true) imply the comparison `atom`?  decided on the DNF of FORM"""
+    try:
+        want = form.cases(atom, True)
+        got = form.cases(nocast(t), True)
+    except form.Unrecognised:
+        return False
+    if len(want) != 1:
+        return False
+    need = {a.key() for a in want[0]}
+    return bool(got) and all(need <= {a.key() for a in g_} for g_ in got)
 
 
 def _replace(t, old, new):
@@ -340,6 +360,96 @@ def rule_closing(ctx):
                 why = f"emplace_back(sentinel, 0, last_n) on every path that does not already end in a sentinel: {allowed}; it is the last push: {last}; slope 0 / intercept last_n: {shape}"
             obs.append(Ob('SENTINEL', l, sent[0] if sent else 0, 'every level of the segment array is terminated by a sentinel segment (the unbounded forward scans stop only because of it)',
                           why, OK if ok else VIOLATED, arm='build-level'))
+    return obs
+
+
+# ------------------------------------------------------------------------------------------ SEAM (chunk seams of the parallel builder)
+def _skip_loops(fn, in_name):
+    """variables X advanced by a duplicate-skip loop: a loop whose test/body compares in(X) with in(X - 1) and whose only
+    write to X is ++X.  returns {decl id: name}"""
+    g = graph(fn)
+    out = {}
+    for vid, d in fn.defs.items():
+        if d.get('param'):
+            continue
+        ws = [w for w in d.get('writes', []) if fn.n(w).get('op') in ('++', '--', '=', '+=', '-=')]
+        if not ws or any(fn.n(w).get('op') != '++' for w in ws):
+            continue
+        X = ('local', d.get('name'), vid)
+        found = False
+        for i in fn.all_ids():
+            nd = fn.n(i)
+            if nd['c'] in ('BinaryOperator', 'CXXOperatorCallExpr') and nd.get('op') in ('==', '!=') and reachable(fn, i):
+                t = nocast(fn.term(i, inline=False))
+                if len(t) == 4 and is_in_call(t[2], in_name) and is_in_call(t[3], in_name):
+                    a, b = in_arg(t[2]), in_arg(t[3])
+                    if (a == X and b == ('op', '-', X, ('lit', 1))) or (b == X and a == ('op', '-', X, ('lit', 1))):
+                        # the increment must be inside a loop together with this comparison
+                        pw = fn.block_of(ws[0])
+                        if pw and any(s_ is not None and pw[0] in g.reachable_from(s_) for s_ in g.succ[pw[0]]):
+                            found = True
+        if found:
+            out[vid] = d.get('name')
+    return out
+
+
+def rule_seam(ctx):
+    """(1) TILE: the ranges [first, last) handed to make_segmentation by the parallel driver tile [0, n): if the start of a chunk
+    is advanced past a run of duplicates that began in the previous chunk, the end of the previous chunk must be advanced by
+    the same rule - otherwise the skipped elements belong to no chunk and the run's gap-guard point is never added.
+    (2) END-GAP: when a chunk that does not end the data (end < n) ends with a run of duplicates, make_segmentation adds the
+    successor point (succ(in(end-1)), end-1) itself, because the next chunk starts after the run and cannot."""
+    obs = []
+    for f in ctx.need(MSP, ctx.units):
+        omp = [i for i in f.all_ids() if f.n(i).get('omp')]
+        if not omp:
+            continue
+        body = set(f.walk(f.n(omp[0])['omp_body']))
+        calls = [c for c in f.calls_to(MS) if c in body]
+        if not calls:
+            continue
+        a = f.n(calls[0])['args']
+        st, en = nocast(f.term(a[1], inline=False)), nocast(f.term(a[2], inline=False))
+        skips = _skip_loops(f, f.params[2]['name'])
+        s_skip = st[0] == 'local' and st[2] in skips
+        e_skip = en[0] == 'local' and en[2] in skips
+        if s_skip and not e_skip:
+            obs.append(Ob('SEAM', f, calls[0], 'the chunk ranges tile [0, n): a duplicate-skip applied to the start of a chunk is applied to the end of the previous chunk as well',
+                          f"`{st[1]}` is advanced past duplicates of the previous chunk's last key, but `{en[1]}` (the previous chunk's end) stays at the nominal boundary: "
+                          f"the skipped elements are handed to no chunk and the gap-guard point after that run is never added", VIOLATED, arm='tile'))
+        elif s_skip and e_skip:
+            obs.append(Ob('SEAM', f, calls[0], 'the chunk ranges tile [0, n)', f"both `{st[1]}` and `{en[1]}` are advanced by the duplicate-skip rule", OK, arm='tile'))
+        else:
+            # no skip at all: every chunk would start at its nominal boundary, possibly in the middle of a run
+            obs.append(Ob('SEAM', f, calls[0], 'a chunk starts at the first occurrence of its first key', f"`{st[1] if len(st) > 1 else fmt_term(st)}` is not advanced past duplicates of the previous key",
+                          VIOLATED if not s_skip else OK, arm='tile'))
+    for f in six(ctx):
+        lams = inner_lambda(f)
+        lid = lams[0].id if lams else None
+        N, END = ('param', f.params[0]['name']), ('param', f.params[2]['name'])
+        E1 = ('op', '-', END, ('lit', 1))
+        found = None
+        for c in [c for c in f.calls() if f.n(c).get('cd') == lid and reachable(f, c)]:
+            xt = strip_cast(f.term(f.n(c)['args'][1], inline=False))
+            yt = nocast(f.term(f.n(c)['args'][2], inline=False))
+            x = xt
+            if x[0] == 'local':
+                d = f.defs.get(x[2], {})
+                ws = [w for w in d.get('writes', []) if f.n(w).get('op') == '=']
+                if len(ws) == 1:
+                    x = strip_cast(f.term(f.n(ws[0])['ch'][1], inline=False))
+            e = succ_of(x)
+            if e is not None and nocast(e) == E1 and yt == E1:
+                # must be restricted to chunks that do not end the data
+                cs = [(nocast(strip_cast(t)), lab) for (t, lab, cn) in conds_of(f, c)]
+                not_last = any(_implies(t if lab else ('un', '!', t), ('op', '<', END, N)) for (t, lab) in cs)
+                found = (c, not_last)
+        if found and found[1]:
+            obs.append(Ob('SEAM', f, found[0], 'a chunk with end < n that ends with a run of duplicates adds (succ(in(end-1)), end-1)', 'present, under end < n', OK, arm='end-gap'))
+        else:
+            obs.append(Ob('SEAM', f, found[0] if found else 0, 'a chunk with end < n that ends with a run of duplicates adds the successor point (succ(in(end-1)), end-1)',
+                          'no such point is added: the loop stops at end-2 and the last element is only added when it differs from its predecessor, so a run that ends exactly at the chunk end '
+                          'never gets its gap-guard point (the next chunk starts after the run)', VIOLATED, arm='end-gap'))
     return obs
 
 
@@ -460,8 +570,23 @@ def rule_omp_order(ctx):
         if calls:
             a = f.n(calls[0])['args']
             last_t = nocast(f.term(a[2], inline=False))
+            grow_ok = True
             if last_t[0] == 'local' and f.single_def(last_t[2]):
                 last_t = nocast(f.term(f.single_def(last_t[2]), inline=False))
+            elif last_t[0] == 'local' and f.defs.get(last_t[2], {}).get('init'):
+                # the end may afterwards only grow, one step at a time, while it is still below n (extension over a run of
+                # duplicates): then "initially n" implies "finally n", and it never exceeds n
+                d_ = f.defs[last_t[2]]
+                lv = last_t
+                for w in d_.get('writes', []):
+                    wn = f.n(w)
+                    if wn.get('op') not in ('++',):
+                        if wn['c'] in ('BinaryOperator', 'CompoundAssignOperator', 'UnaryOperator', 'CXXOperatorCallExpr'):
+                            grow_ok = False
+                        continue
+                    if not any(_implies(t if lab else ('un', '!', t), ('op', '<', lv, N)) for (t, lab, cn) in [(nocast(strip_cast(t_)), l_, c_) for (t_, l_, c_) in conds_of(f, w)]):
+                        grow_ok = False
+                last_t = nocast(f.term(d_['init'], inline=False))
             whyl = f"last = {fmt_term(last_t)[:100]}"
             # proof by normal form: a conditional that yields n exactly when i is the last chunk
             proved = False
@@ -479,9 +604,12 @@ def rule_omp_order(ctx):
                         proved = a1 == a2
                     except form.Unrecognised:
                         proved = False
-            if proved:
+            if proved and not grow_ok:
+                whyl += ' — but the end is modified afterwards by something other than a guarded `++` below n'
+                okl = None
+            elif proved:
                 okl = True
-                whyl += ' — equals n exactly for the last chunk (i == parallelism - 1)'
+                whyl += ' — equals n exactly for the last chunk (i == parallelism - 1)' + ('' if f.single_def(nocast(f.term(a[2], inline=False))[2]) else '; afterwards it only grows by guarded ++ while < n')
             else:
                 # refutation by witness: evaluate the expression for concrete (n, parallelism) at i = parallelism - 1
                 witness = None
@@ -765,7 +893,7 @@ def rule_precision(ctx):
 
 
 def rules_c03(ctx):
-    return rule_no_drop(ctx) + rule_rank_agree(ctx) + rule_omp_order(ctx) + rule_key_arith(ctx) + [o for o in rule_geom_guards(ctx) if o.rule == 'GEOM-GUARDS'] + rule_precision(ctx)
+    return rule_no_drop(ctx) + rule_rank_agree(ctx) + rule_omp_order(ctx) + rule_seam(ctx) + rule_key_arith(ctx) + [o for o in rule_geom_guards(ctx) if o.rule == 'GEOM-GUARDS'] + rule_precision(ctx)
 
 
 def rules_c04(ctx):
